@@ -207,7 +207,7 @@ class Run:
 
         if self.harness_errors:
             for m in self.harness_errors[:20]:
-                print(f"HARNESS-ERROR: {m[:3000]}")
+                print(f"HARNESS-ERROR: {m[:600]}{' [...] ' + m[-2400:] if len(m) > 3000 else m[600:]}")
             if rc == 0:
                 rc = 2
         nerr = self.counters.get("status:harness-error", 0)
